@@ -849,6 +849,26 @@ def model_check_clean(scn, entries, old_states, new_snap):
     return problems
 
 
+def _between(old, new, got):
+    """An operation may rewrite a file more than once, each time atomically (a flush followed by the at-exit flush that unlocks
+    the file and stamps the closing time): the complete version in between has the new command list and, field by field,
+    the old or the new value of everything else."""
+    if not (isinstance(old, dict) and isinstance(new, dict) and isinstance(got, dict)):
+        return False
+    if set(got) - (set(old) | set(new)) or got.get("cmds") != new.get("cmds"):
+        return False
+    for k, v in got.items():
+        if k == "cmds":
+            continue
+        if k == "ts" and isinstance(v, list) and isinstance(old.get("ts"), list) and isinstance(new.get("ts"), list):
+            if len(v) == 2 and v[0] in (old["ts"][0], new["ts"][0]) and v[1] in (old["ts"][1], new["ts"][1]):
+                continue
+            return False
+        if not ((k in old and v == old[k]) or (k in new and v == new[k])):
+            return False
+    return True
+
+
 def judge(scn, entries, old_states, new_snap, new_states, snap):
     """Post-crash state vs. {old, new}.  -> list of (kind, rel, detail)."""
     bad = []
@@ -880,6 +900,8 @@ def judge(scn, entries, old_states, new_snap, new_states, snap):
         if (kind in GC_KINDS and so[0] == "ok" and e["spec"]["lock"] == "stale"
                 and s[1] == dict(so[1], locked=False)):
             continue            # the complete unlocked version (GC may remove the file afterwards)
+        if so[0] == "ok" and sn is not None and sn[0] == "ok" and _between(so[1], sn[1], s[1]):
+            continue            # a complete version between two atomic rewrites of one operation (flush, then the at-exit flush)
         if so[0] == "ok":
             o, n = _inps(so[1]), _inps(s[1])
             lost = [x for x in o if x not in n]
